@@ -1,8 +1,8 @@
-(* Proofs about the error-position model Pos/ErrRange.v. *)
+(* Proofs about the error-position model Pos/ErrRange.v: bounds, order, line/column of the index, and the
+   full character-boundary statement. *)
 From Coq Require Import ZifyBool ZifyNat ZifyN.
-From Cddl Require Import Base.Bytes Base.Utf8 Pos.Span Pos.SpanProofs Pos.ErrRange.
+From Cddl Require Import Base.Bytes Base.Utf8 Pos.Span Pos.SpanProofs Pos.ErrRange Pos.BoundaryProofs.
 Open Scope N_scope.
-Ltac Zify.zify_post_hook ::= Z.div_mod_to_equations.
 Arguments N.add : simpl never.
 Arguments N.mul : simpl never.
 Arguments N.sub : simpl never.
@@ -11,50 +11,11 @@ Arguments N.eqb : simpl never.
 Arguments N.leb : simpl never.
 Arguments N.ltb : simpl never.
 
-Lemma lenN_take_while_le : forall A (p : A -> bool) l, lenN (take_while p l) <= lenN l.
-Proof.
-  induction l as [| x l IH]; [cbn; lia |]. cbn [take_while]. destruct (p x).
-  - rewrite !lenN_cons. lia.
-  - rewrite lenN_nil, lenN_cons. lia.
-Qed.
-Lemma lenN_drop_while_le : forall A (p : A -> bool) l, lenN (drop_while p l) <= lenN l.
-Proof.
-  induction l as [| x l IH]; [cbn; lia |]. cbn [drop_while]. destruct (p x).
-  - rewrite lenN_cons. lia.
-  - lia.
-Qed.
-
-Lemma scan_token_start_le : forall bs pos, scan_token_start bs pos <= pos.
-Proof.
-  intros. unfold scan_token_start. destruct (skipnN pos bs) as [| ch t]; [lia |].
-  destruct (tok_char ch); lia.
-Qed.
-
-(* the backward branch on its own *)
 Definition back_range (index : N) (bs : list N) : N * N :=
   match drop_while skipped (rev (firstnN index bs)) with
   | [] => (index, index)
   | (_ :: _) as back => (scan_token_start bs (lenN back - 1), lenN back - 1 + 1)
   end.
-
-Lemma back_range_facts : forall index bs,
-  fst (back_range index bs) <= snd (back_range index bs)
-  /\ fst (back_range index bs) <= index
-  /\ snd (back_range index bs) <= index
-  /\ (fst (back_range index bs) < index -> snd (back_range index bs) = fst (back_range index bs) + 1
-        \/ snd (back_range index bs) <= lenN bs).
-Proof.
-  intros index bs. unfold back_range.
-  pose proof (lenN_drop_while_le N skipped (rev (firstnN index bs))) as L.
-  rewrite lenN_rev in L. pose proof (lenN_firstnN_le N bs index) as L2.
-  pose proof (lenN_firstnN N bs index) as L3.
-  destruct (drop_while skipped (rev (firstnN index bs))) as [| x back]; cbn [fst snd].
-  - lia.
-  - rewrite lenN_cons in *. pose proof (scan_token_start_le bs (lenN back + 1 - 1)). lia.
-Qed.
-
-Lemma back_range_end_le_len : forall index bs, index <= lenN bs -> snd (back_range index bs) <= lenN bs.
-Proof. intros index bs H. pose proof (back_range_facts index bs). lia. Qed.
 
 Lemma compute_error_range_cases : forall index bs,
   (exists ch t, skipnN index bs = ch :: t /\ skipped ch = false
@@ -69,40 +30,58 @@ Proof.
   left. exists ch, t. auto.
 Qed.
 
+Lemma scan_token_start_le : forall bs pos, scan_token_start bs pos <= pos.
+Proof.
+  intros. unfold scan_token_start. destruct (skipnN pos bs) as [| ch t]; [lia |].
+  destruct (tok_char ch); [lia |]. destruct (is_cont ch); [| lia].
+  destruct (lenN (take_while is_cont (rev (firstnN pos bs))) <? pos); lia.
+Qed.
+
 Lemma scan_token_end_le_len : forall bs index, scan_token_end bs index <= N.max index (lenN bs).
 Proof.
   intros bs index. unfold scan_token_end. pose proof (lenN_skipnN N bs index) as L.
   destruct (skipnN index bs) as [| first t] eqn:S; [lia |].
   destruct (tok_first first).
   - pose proof (lenN_take_while_le N tok_char (first :: t)) as H. rewrite lenN_cons in H, L. lia.
-  - rewrite lenN_cons in L. lia.
+  - pose proof (lenN_take_while_le N is_cont t) as H. rewrite lenN_cons in L. lia.
 Qed.
 
-(* ---------- theorems ---------- *)
+Lemma back_range_facts : forall index bs,
+  fst (back_range index bs) <= snd (back_range index bs)
+  /\ fst (back_range index bs) <= index
+  /\ snd (back_range index bs) <= index.
+Proof.
+  intros index bs. unfold back_range.
+  pose proof (lenN_drop_while_le N skipped (rev (firstnN index bs))) as L.
+  rewrite lenN_rev in L. pose proof (lenN_firstnN_le N bs index) as L2.
+  destruct (drop_while skipped (rev (firstnN index bs))) as [| x back]; cbn [fst snd].
+  - lia.
+  - rewrite lenN_cons in *. pose proof (scan_token_start_le bs (lenN back + 1 - 1)). lia.
+Qed.
+
+(* bounds and order are kept *)
+Theorem err_range_in_bounds : forall bs index, index <= lenN bs ->
+  fst (compute_error_range index bs) <= snd (compute_error_range index bs)
+  /\ snd (compute_error_range index bs) <= lenN bs
+  /\ fst (compute_error_range index bs) <= index.
+Proof.
+  intros bs index Hi.
+  destruct (compute_error_range_cases index bs) as [(ch & t & S & K & Lt & E) | E]; rewrite E.
+  - cbn [fst snd]. pose proof (scan_token_end_le_len bs index). lia.
+  - pose proof (back_range_facts index bs). lia.
+Qed.
+
 (* the range is never inverted and starts at or before pest's failure offset (no precondition) *)
 Theorem err_range_non_inverted : forall bs index,
   fst (compute_error_range index bs) <= snd (compute_error_range index bs)
   /\ fst (compute_error_range index bs) <= index.
 Proof.
-  intros bs index. destruct (compute_error_range_cases index bs) as [(ch & t & S & K & Lt & E) | E]; rewrite E.
+  intros bs index.
+  destruct (compute_error_range_cases index bs) as [(ch & t & S & K & Lt & E) | E]; rewrite E.
   - cbn [fst snd]. lia.
   - pose proof (back_range_facts index bs). lia.
 Qed.
 
-(* a <= b <= |s| whenever pest's offset lies in the input *)
-Theorem err_range_in_bounds : forall bs index, index <= lenN bs ->
-  fst (compute_error_range index bs) <= snd (compute_error_range index bs)
-  /\ snd (compute_error_range index bs) <= lenN bs.
-Proof.
-  intros bs index Hi. split; [apply err_range_non_inverted |].
-  destruct (compute_error_range_cases index bs) as [(ch & t & S & K & Lt & E) | E]; rewrite E.
-  - cbn [snd]. pose proof (scan_token_end_le_len bs index). lia.
-  - apply back_range_end_le_len. exact Hi.
-Qed.
-
-(* the reported index is the start of the range, and the reported line / column are those of that index:
-   1 + line feeds before it, 1 + characters since the last line feed (whether they were re-counted by the
-   bridge or taken from pest, CRLF included) *)
 Theorem err_linecol_of_index : forall bs index,
   let p := convert_pest_error bs index in
   p_range p = compute_error_range index bs
@@ -112,60 +91,133 @@ Theorem err_linecol_of_index : forall bs index,
 Proof.
   intros bs index. unfold convert_pest_error. cbn [p_range p_index p_line p_column].
   split; [reflexivity |]. split; [reflexivity |].
-  pose proof (err_range_non_inverted bs index) as [_ Hle].
+  pose proof (err_range_non_inverted bs index) as (_ & Hle).
   destruct (N.ltb_spec (fst (compute_error_range index bs)) index) as [Lt | Ge].
   - rewrite linecol_loop_spec. cbn [fst snd]. split; lia.
   - assert (E : fst (compute_error_range index bs) = index) by lia. rewrite E.
     rewrite pest_line_col_spec. cbn [fst snd]. split; reflexivity.
 Qed.
 
-(* ---------- character boundaries ---------- *)
-(* FULL STATEMENT (false of the code, see err_range_on_char_boundary_refuted):
-     forall bs index, utf8_valid bs = true -> index <= lenN bs -> char_boundary bs index = true ->
-       char_boundary bs (fst (compute_error_range index bs)) = true
-       /\ char_boundary bs (snd (compute_error_range index bs)) = true.                               *)
-
-Lemma ascii_all_boundaries : forall bs i, all_ascii bs = true -> i <= lenN bs -> char_boundary bs i = true.
+(* ---------- forward ---------- *)
+Lemma forward_end_boundary : forall bs index ch t,
+  cont_ok bs = true -> index <= lenN bs -> skipnN index bs = ch :: t ->
+  char_boundary bs (scan_token_end bs index) = true.
 Proof.
-  intros bs i A Hi. unfold char_boundary. destruct (skipnN i bs) as [| b t] eqn:S.
-  - apply skipnN_nil_iff in S. apply N.eqb_eq. lia.
-  - unfold all_ascii in A. rewrite forallb_forall in A.
-    assert (In b bs) as Hin.
-    { rewrite <- (firstnN_skipnN N bs i), S. apply in_or_app. right. left. reflexivity. }
-    specialize (A b Hin). unfold is_cont. lia.
+  intros bs index ch t Hc Hi S.
+  pose proof (lenN_skipnN N bs index) as L. rewrite S, lenN_cons in L.
+  unfold scan_token_end. rewrite S. destruct (tok_first ch) eqn:TF.
+  - pose proof (skipnN_take_while N tok_char (ch :: t)) as D.
+    assert (S2 : skipnN (index + lenN (take_while tok_char (ch :: t))) bs = drop_while tok_char (ch :: t)).
+    { rewrite skipnN_add, S. exact D. }
+    pose proof (after_ascii_run tok_char (ch :: t) tok_char_ascii (eq_trans (eq_sym (f_equal cont_ok S)) (cont_ok_skipnN bs index Hc))) as A.
+    assert (Hne : take_while tok_char (ch :: t) <> []).
+    { cbn [take_while]. rewrite (tok_first_char ch TF). congruence. }
+    specialize (A Hne).
+    destruct (drop_while tok_char (ch :: t)) as [| y r] eqn:DW.
+    + apply char_boundary_end; [exact S2 |].
+      pose proof (lenN_take_while_le N tok_char (ch :: t)) as Le. rewrite lenN_cons in Le. lia.
+    + rewrite (char_boundary_head _ _ y r S2). rewrite A. reflexivity.
+  - assert (S2 : skipnN (index + 1 + lenN (take_while is_cont t)) bs = drop_while is_cont t).
+    { rewrite <- N.add_assoc, skipnN_add, S. rewrite skipnN_add. rewrite skipnN_cons by lia. rewrite skipnN_0.
+      apply skipnN_take_while. }
+    destruct (drop_while is_cont t) as [| y r] eqn:DW.
+    + apply char_boundary_end; [exact S2 |].
+      pose proof (lenN_take_while_le N is_cont t) as Le. lia.
+    + rewrite (char_boundary_head _ _ y r S2). rewrite (drop_while_head N is_cont t y r DW). reflexivity.
 Qed.
 
-(* proved for ASCII-only documents *)
-Theorem err_range_on_char_boundary_partial : forall bs index,
-  all_ascii bs = true -> index <= lenN bs ->
+(* ---------- backward ---------- *)
+Lemma backward_boundaries : forall bs index x back',
+  cont_ok bs = true -> match bs with b :: _ => is_cont b = false | [] => True end ->
+  index <= lenN bs -> char_boundary bs index = true ->
+  drop_while skipped (rev (firstnN index bs)) = x :: back' ->
+  char_boundary bs (scan_token_start bs (lenN (x :: back') - 1)) = true
+  /\ char_boundary bs (lenN (x :: back') - 1 + 1) = true.
+Proof.
+  intros bs index x back' Hc Hhead Hi Hb D.
+  set (P := firstnN index bs) in *. set (R := skipnN index bs).
+  assert (HB : bs = P ++ R) by (symmetry; apply firstnN_skipnN).
+  pose proof (take_drop_while N skipped (rev P)) as TD. rewrite D in TD.
+  set (sk := take_while skipped (rev P)) in *.
+  pose proof (rev_cons_split P sk x back' (eq_sym TD)) as HP.
+  assert (Hsk : forall y, In y sk -> skipped y = true) by (intros y Hy; apply (take_while_all N skipped (rev P)); exact Hy).
+  assert (LP : lenN P = N.min index (lenN bs)) by apply lenN_firstnN.
+  assert (Hbs : bs = (rev back' ++ [x]) ++ rev sk ++ R).
+  { rewrite HB at 1. rewrite HP. rewrite <- !app_assoc. reflexivity. }
+  assert (Lpos : lenN (x :: back') - 1 = lenN (rev back')) by (rewrite lenN_cons, lenN_rev; lia).
+  assert (Lend : lenN (x :: back') - 1 + 1 = lenN (rev back' ++ [x])).
+  { rewrite lenN_app, lenN_rev, lenN_cons. change (lenN [x]) with 1. lia. }
+  assert (LPlen : lenN P = lenN back' + 1 + lenN sk).
+  { rewrite HP, lenN_app, lenN_rev, lenN_cons, lenN_rev. lia. }
+  split.
+  - rewrite Lpos. unfold scan_token_start.
+    assert (S1 : skipnN (lenN (rev back')) bs = x :: rev sk ++ R).
+    { rewrite Hbs at 1. rewrite <- app_assoc. rewrite skipnN_app_len. reflexivity. }
+    assert (F1 : firstnN (lenN (rev back')) bs = rev back').
+    { rewrite Hbs at 1. rewrite <- app_assoc. apply firstnN_app_len. }
+    rewrite S1, F1, rev_involutive. destruct (tok_char x) eqn:TC.
+    + pose proof (take_drop_while N tok_char back') as TD2.
+      set (tw := take_while tok_char back') in *. set (dw := drop_while tok_char back') in *.
+      assert (Ha : lenN (rev back') - lenN tw = lenN (rev dw)).
+      { rewrite !lenN_rev. rewrite <- TD2 at 1. rewrite lenN_app. lia. }
+      rewrite Ha.
+      assert (S2 : skipnN (lenN (rev dw)) bs = rev tw ++ x :: rev sk ++ R).
+      { rewrite Hbs at 1. rewrite <- TD2 at 1. rewrite rev_app_distr. rewrite <- !app_assoc. rewrite skipnN_app_len. reflexivity. }
+      destruct (rev tw) as [| z tz] eqn:RT.
+      * cbn [app] in S2. rewrite (char_boundary_head _ _ _ _ S2). rewrite (ascii_not_cont x (tok_char_ascii x TC)). reflexivity.
+      * cbn [app] in S2. rewrite (char_boundary_head _ _ _ _ S2).
+        assert (In z tw) as Hz. { apply in_rev. rewrite RT. left. reflexivity. }
+        rewrite (ascii_not_cont z (tok_char_ascii z (take_while_all N tok_char back' z Hz))). reflexivity.
+    + destruct (is_cont x) eqn:CX.
+      * (* back up over the continuation bytes *)
+        pose proof (take_drop_while N is_cont back') as TD2.
+        set (tw := take_while is_cont back') in *.
+        destruct (N.ltb_spec (lenN tw) (lenN (rev back'))) as [Hk | Hk].
+        -- destruct (drop_while is_cont back') as [| z dw'] eqn:DW.
+           { rewrite app_nil_r in TD2. rewrite lenN_rev in Hk. rewrite <- TD2 in Hk. lia. }
+           assert (Ha : lenN (rev back') - (lenN tw + 1) = lenN (rev dw')).
+           { rewrite !lenN_rev. rewrite <- TD2 at 1. rewrite lenN_app, lenN_cons. lia. }
+           rewrite Ha.
+           assert (S2 : skipnN (lenN (rev dw')) bs = z :: rev tw ++ x :: rev sk ++ R).
+           { rewrite Hbs at 1. rewrite <- TD2 at 1. rewrite rev_app_distr. cbn [rev]. rewrite <- !app_assoc.
+             rewrite skipnN_app_len. reflexivity. }
+           rewrite (char_boundary_head _ _ _ _ S2). rewrite (drop_while_head N is_cont back' z dw' DW). reflexivity.
+        -- (* everything before is a continuation byte: start of the text *)
+           unfold char_boundary. rewrite skipnN_0. destruct bs as [| b0 r0].
+           ++ reflexivity.
+           ++ rewrite Hhead. reflexivity.
+      * rewrite (char_boundary_head _ _ _ _ S1). rewrite CX. reflexivity.
+  - rewrite Lend.
+    assert (S3 : skipnN (lenN (rev back' ++ [x])) bs = rev sk ++ R).
+    { rewrite Hbs at 1. apply skipnN_app_len. }
+    destruct (rev sk) as [| y ty] eqn:RS.
+    + assert (sk = []) as Esk. { rewrite <- (rev_involutive sk), RS. reflexivity. }
+      rewrite Esk, lenN_nil in LPlen.
+      assert (lenN (rev back' ++ [x]) = index) as Eidx.
+      { rewrite lenN_app, lenN_rev. change (lenN [x]) with 1. lia. }
+      rewrite Eidx. exact Hb.
+    + cbn [app] in S3. rewrite (char_boundary_head _ _ _ _ S3).
+      assert (In y sk) as Hy. { apply in_rev. rewrite RS. left. reflexivity. }
+      rewrite (ascii_not_cont y (skipped_ascii y (Hsk y Hy))). reflexivity.
+Qed.
+
+(* THE FULL STATEMENT holds of the repaired functions *)
+Theorem err_range_on_char_boundary : forall bs index,
+  utf8_valid bs = true -> index <= lenN bs -> char_boundary bs index = true ->
   char_boundary bs (fst (compute_error_range index bs)) = true
   /\ char_boundary bs (snd (compute_error_range index bs)) = true.
 Proof.
-  intros bs index A Hi. pose proof (err_range_in_bounds bs index Hi) as [H1 H2].
-  split; apply ascii_all_boundaries; auto; lia.
+  intros bs index Hv Hi Hb. destruct (utf8_valid_fuel_cont_ok _ bs Hv) as [Hc Hhead].
+  destruct (compute_error_range_cases index bs) as [(ch & t & S & Sk & Lt & E) | E]; rewrite E.
+  - cbn [fst snd]. split; [exact Hb |]. apply (forward_end_boundary bs index ch t Hc Hi S).
+  - unfold back_range. destruct (drop_while skipped (rev (firstnN index bs))) as [| x back'] eqn:D.
+    + cbn [fst snd]. auto.
+    + cbn [fst snd]. apply (backward_boundaries bs index x back' Hc Hhead Hi Hb D).
 Qed.
 
-(* `a = é` (61 20 3d 20 c3 a9), pest fails at offset 4: range (4,5) ends inside the two-byte character;
-   `a = ; é\n`, pest fails at offset 9 (end of input): range (7,8) and index 7 start inside it *)
-Theorem err_range_on_char_boundary_refuted :
-  (exists bs index, utf8_valid bs = true /\ index <= lenN bs /\ char_boundary bs index = true
-     /\ kf_range_end_in_char bs index = true
-     /\ char_boundary bs (snd (compute_error_range index bs)) = false)
-  /\ (exists bs index, utf8_valid bs = true /\ index <= lenN bs /\ char_boundary bs index = true
-     /\ kf_range_start_in_char bs index = true
-     /\ char_boundary bs (fst (compute_error_range index bs)) = false
-     /\ char_boundary bs (p_index (convert_pest_error bs index)) = false).
-Proof.
-  split.
-  - exists [97; 32; 61; 32; 195; 169], 4. vm_compute. repeat split; congruence.
-  - exists [97; 32; 61; 32; 59; 32; 195; 169; 10], 9. vm_compute. repeat split; congruence.
-Qed.
-
-Example err_example_forward :
-  convert_pest_error [97; 32; 61; 32; 116; 115; 116; 114; 32; 46; 102; 111; 111; 32; 51] 10
-  = mkPos 1 11 (10, 13) 10.
-Proof. vm_compute. reflexivity. Qed.
-(* "a = [\r\n  1,\r\n" : pest fails at the end of the input; the range moves back to the comma on line 2 *)
-Example err_example_backward :
-  convert_pest_error [97; 32; 61; 32; 91; 13; 10; 32; 32; 49; 44; 13; 10] 13 = mkPos 2 4 (10, 11) 10.
-Proof. vm_compute. reflexivity. Qed.
+(* on the witnesses the repaired functions give whole characters *)
+Example err_examples :
+  compute_error_range 4 [97; 32; 61; 32; 195; 169] = (4, 6)
+  /\ compute_error_range 9 [97; 32; 61; 32; 59; 32; 195; 169; 10] = (6, 8)
+  /\ convert_pest_error [97; 32; 61; 32; 59; 32; 195; 169; 10] 9 = mkPos 1 7 (6, 8) 6.
+Proof. vm_compute. auto. Qed.
